@@ -12,6 +12,12 @@ import os
 
 PREDICATES = [
     # C12: shape of the executed formulas on non-finite values (both formulas are (a + b*x)/(c + d*x) with d = 0 ...)
+    # C16: no current symbol is rewritten by the legacy substitution list; every derived legacy spelling of a row
+    # is an exact alias of it
+    dict(tag="legfix", pred="UnitRow.notRewritten Barril.Gen.legacyList", imports=["Barril.Gen.Consts", "Barril.Model.LegacyApi"],
+         kinds=["posc", "nocat", "simple"], over="units"),
+    dict(tag="legder", pred="UnitRow.derivedOk {db}", imports=["Barril.Model.LegacyApi"],
+         kinds=["posc", "nocat", "simple"], over="units"),
     dict(tag="valshape", pred="UnitRow.valShape", imports=["Barril.Model.Valid"], kinds=["posc", "nocat"], over="units"),
 ]
 
